@@ -80,6 +80,10 @@ func genDistOnce(r *kernel.Rng, cfg DistGenCfg) (disttypes.Params, bool) {
 				id = cfg.BaseAddrs[r.Intn(len(cfg.BaseAddrs))]
 			}
 		}
+		if cfg.Respell && i > 0 && len(internals) > 0 && r.P(0.5) {
+			// internal accounts are names: two ids that differ only in letter case are two accounts
+			id = strings.ToUpper(internals[0].Id)
+		}
 		dup := false
 		for _, x := range internals {
 			if x.Id == id {
